@@ -471,6 +471,28 @@ theorem run_spec (cfg : Cfg) (ops : List Op) (st : State) (h : Inv cfg st) :
       exact e2.1 _ (o1.1 m hm)
     · exact o2 p hp
 
+/-- What an operation is answered when it is the only one ever made (empty cache), object identity erased. -/
+def coldAnswer (cfg : Cfg) (op : Op) : OutE := (step cfg State.init op).2.erase
+
+/-- Every request of the operation asks for a model type that only the asking recogniser's kind registers. -/
+def OwnType (cfg : Cfg) (op : Op) : Prop := ∀ k t c fb o, request cfg op = some (k, t, c, fb, o) → Owned cfg k t
+
+theorem step_erase_of_no_request (cfg : Cfg) (st st' : State) (op : Op) (h : request cfg op = none) :
+    (step cfg st op).2 = (step cfg st' op).2 := by
+  cases op <;> simp [request] at h <;> simp [step] <;> split <;> rfl
+
+/-- In any state satisfying the invariant an operation on own model types is answered as if it were alone. -/
+theorem step_transparent (cfg : Cfg) (st : State) (h : Inv cfg st) (op : Op) (hown : OwnType cfg op) :
+    (step cfg st op).2.erase = coldAnswer cfg op := by
+  unfold coldAnswer
+  cases hreq : request cfg op with
+  | none => rw [step_erase_of_no_request cfg st State.init op hreq]
+  | some q =>
+    obtain ⟨k, t, c, fb, o⟩ := q
+    have a := (step_spec cfg st op h).2.2.2 k t c fb o hreq
+    have b := (step_spec cfg State.init op (inv_init cfg)).2.2.2 k t c fb o hreq
+    rw [a.2 (hown k t c fb o hreq), b.2 (hown k t c fb o hreq)]
+
 theorem run_length (cfg : Cfg) (ops : List Op) (st : State) : (run cfg st ops).2.length = ops.length := by
   induction ops generalizing st with
   | nil => rfl
@@ -536,6 +558,10 @@ theorem tag_filter_of_current (S : List Str) (p : Str) :
     rw [h] at this
     simp [h, this]
   · simp [h]
+
+theorem route_registered (cfg : Cfg) (kind : Nat) (t cs : Str) (fb : Bool) (o : Int)
+    (h : (t, cs) ∈ cfg.regs kind) : route cfg kind t (some cs) fb o = .ok ⟨kind, t, cs, o⟩ := by
+  simp [route, h]
 
 theorem route_unreg (cfg : Cfg) (kind : Nat) (t : Str) (c : Option Str) (fb : Bool) (o : Int)
     (h : ∀ cs, c = some cs → (t, cs) ∉ cfg.regs kind) :
